@@ -1,4 +1,5 @@
 import SpdxVerif.Props.C11
+import SpdxVerif.Props.C11Oracle
 #print axioms Spdx.C11.ranges_listed
 #print axioms Spdx.C11.ranges_no_duplicates
 #print axioms Spdx.C11.families_one_key
@@ -8,3 +9,8 @@ import SpdxVerif.Props.C11
 #print axioms Spdx.C11.positions_exact
 #print axioms Spdx.C11.plus_reach_pos
 #print axioms Spdx.C11.plus_never_leaves_table
+#print axioms Spdx.C11.reach_agree
+#print axioms Spdx.C11.plus_reach_oracle
+#print axioms Spdx.C11.plus_never_crosses_family
+#print axioms Spdx.C11.range_ids_are_id_bytes
+#print axioms Spdx.C11.foldEq_plus_noplus
